@@ -112,8 +112,12 @@ func (r *conc14Runner) stressTxPool(seed int64, nw, nops int, addsOnly bool) {
 	cfg := txcache.ConfigSourceMe{Name: "c14", NumChunks: 4, EvictionEnabled: !addsOnly, NumBytesThreshold: 4000, NumBytesPerSenderThreshold: 1_000_000,
 		CountThreshold: 40, CountPerSenderThreshold: 1000, NumItemsToPreemptivelyEvict: 3}
 	if addsOnly {
+		// "in the absence of removals and eviction": no pool-wide eviction and no per-sender trimming either, whatever the
+		// number of workers and insertions of the tier
 		cfg.NumBytesThreshold = 1_000_000_000
 		cfg.CountThreshold = 1_000_000
+		cfg.CountPerSenderThreshold = 1_000_000
+		cfg.NumBytesPerSenderThreshold = 33_554_432
 	}
 	host := &txHost{byPtr: map[data.TransactionWithFeeHandler]*txDef{}}
 	var hostMu sync.Mutex
@@ -202,6 +206,8 @@ func (r *conc14Runner) stressTxPool(seed int64, nw, nops int, addsOnly bool) {
 		seen := map[string]bool{}
 		for _, a := range all {
 			seen[string(a.hash)] = true
+		}
+		for _, a := range all {
 			if !cache.Has(a.hash) {
 				r.add("C14", "concurrent-add-lost", fmt.Sprintf("txadds seed=%d: transaction %s added concurrently is missing", seed, hx(a.hash)))
 				break
